@@ -68,6 +68,6 @@ def run_property(ctx, pid, profile, quick, thorough, nontrivial, rule, flavour="
     }
     if extra_cov:
         cov.update(extra_cov(totals))
-    return ctx.finish(cov, ["LC_ALL=C.UTF-8 (local 8-bit encoding is UTF-8)", "TZ=UTC", "file mtimes are stamped from the virtual clock at "
+    return ctx.finish(cov, ["LC_ALL=C.UTF-8 (local 8-bit encoding is UTF-8)", "process time zone: UTC or a fixed-offset POSIX zone (+9, -11, +5:45, -3:30) per history", "file mtimes are stamped from the virtual clock at "
                             "every write()/create by the syscall shim (granularity emulated by truncation)"],
                       min_evals=1 if ctx.replay else 50, min_distinct=min_distinct)
